@@ -1,10 +1,53 @@
 (* C01 — write-then-read round trip preserves the whole table.
-   Proved here for the slice part of a file (any number of slices, any columns, any encodings,
-   any properties): what the writers emit is read back as the same content, and then
-   end-of-table.  The table-metadata section (sbdf_tm_write / sbdf_tm_read with its
-   sort/fold/re-expansion) is covered by the correspondence run only: see DESIGN.md.
-   Statements only. *)
-From Sbdf Require Import File PrimFacts SevenBit ObjFacts VaFacts SliceFacts FileFacts.
+   wf_file meta sls names: the table metadata is well formed (singleton values, defaults of the
+   same type, names unique per collection, sizes below 2^31), the column metadata folds without a
+   conflict to the file-wide name list `names`, and every slice has as many columns as the metadata.
+   Statements only; proofs in TmFacts.v, SliceFacts.v, FileFacts.v. *)
+From Sbdf Require Import File PrimFacts SevenBit ObjFacts VaFacts SliceFacts MdFacts TmFacts FileFacts.
+
+(* header, table metadata, slices, end marker: the writers produce bytes from which the readers
+   deliver the metadata, every slice in order, and then end-of-table exactly at the end marker *)
+Theorem C01_file_roundtrip : forall swp meta sls names budget tail, wf_file meta sls names ->
+  zlen (enc_file swp meta sls names) <= budget ->
+  exists bs, wrun (write_table swp {| t_meta := meta; t_slices := map caller_ts sls |}) budget = (SBDF_OK, bs) /\
+             read_table swp None None (bs ++ tail) = (Some (read_back meta sls names), SBDF_TABLEEND, enc_end ++ tail).
+Proof.
+  intros swp meta sls names budget tail W Hb. exists (enc_file swp meta sls names). split.
+  - pose proof (BaseFacts.zlen_nonneg (enc_file swp meta sls names)).
+    destruct (wspec_run _ _ _ budget (wspec_file swp meta sls names W) ltac:(lia)) as [H1 _]. now apply H1.
+  - now apply read_file_exact.
+Qed.
+Print Assumptions C01_file_roundtrip.
+
+(* what is read back: the table-level metadata as written (frozen), the slices as written (owned by
+   the reader), and per column the same names with the same values and defaults — as a name-keyed
+   set, in the file-wide first-appearance order *)
+Theorem C01_column_metadata_content : forall cols names c name, Forall col_ok cols -> cols_dflt_wf cols ->
+  fold_columns cols = Ok names -> In c cols ->
+  match md_find name c, md_find name (norm names c) with
+  | Some e, Some e' => evalue e' = evalue e /\ edflt e' = edflt e /\ key e' = key e
+  | None, None => True
+  | _, _ => False
+  end.
+Proof. exact norm_same_content. Qed.
+Print Assumptions C01_column_metadata_content.
+
+(* same-named column metadata with different types or different defaults: the writer returns
+   INCORRECT_METADATA instead of producing a file (only the header and the head of the metadata
+   section have been handed to the stream) *)
+Theorem C01_conflict_refused : forall swp meta slices st, tm_ok meta -> fold_columns (tcols meta) = Err st ->
+  wspec (write_table swp {| t_meta := meta; t_slices := slices |}) (Err SBDF_ERROR_INCORRECT_METADATA) (enc_header ++ enc_tm_head swp meta).
+Proof. exact wspec_file_conflict. Qed.
+Print Assumptions C01_conflict_refused.
+
+(* ... and the folding fails exactly when two entries with the same name disagree: when it
+   succeeds, all same-named entries agree on type and default *)
+Theorem C01_fold_ok_means_consistent : forall cols names, fold_columns cols = Ok names -> cols_dflt_wf cols ->
+  NoDup (map key names) /\ (forall n, In n names -> In n (concat (map ments cols))) /\
+  (forall e, In e (concat (map ments cols)) -> exists n, In n names /\ same_name n e /\ agree n e).
+Proof. exact fold_columns_spec. Qed.
+Print Assumptions C01_fold_ok_means_consistent.
+
 
 (* writer and reader meet in enc_*: for every budget that suffices the writer produces bs, and the
    reader maps bs (followed by anything) back to the value *)
